@@ -14,8 +14,8 @@ cell-method and coordinate-reference keys are plain numbers in their own namespa
 Part 1  `describe…`: the dictionary look-ups performed by
         `Field.__repr__/__str__/dump`, `Domain.__str__/dump`
         (cfdm/field.py, cfdm/domain.py, mixin/propertiesdata.py `dump`), `none` = `KeyError`.
-        `axesOld` = the code as it is (`construct_data_axes[cid]`),
-        `axesNew` = the proposed patch (`construct_data_axes.get(cid, ())`).
+        `axesNew` = the code at /repo HEAD, since repair fabc4b1 (`construct_data_axes.get(cid, ())`),
+        `axesOld` = the code before that repair (`construct_data_axes[cid]`).
 Part 2  `creationCommands`: the commands emitted by
         `Field/Domain/PropertiesDataBounds/…​.creation_commands`, in emission order, and
         `exec`, an interpreter for them with the semantics of `Constructs._set_construct`,
@@ -103,9 +103,9 @@ def Entry.boundsData (e : Entry) : Bool :=
   | some b => b.hasData
   | none => false
 
-/-- the code as it is: `constructs.data_axes()[cid]` -/
+/-- the code before repair fabc4b1: `constructs.data_axes()[cid]` -/
 def axesOld (e : Entry) : Option (List Nat) := e.axes
-/-- the proposed patch: `constructs.data_axes().get(cid, ())` -/
+/-- the code at /repo HEAD (repair fabc4b1): `constructs.data_axes().get(cid, ())` -/
 def axesNew (e : Entry) : Option (List Nat) := some (e.axes.getD [])
 
 /-- `_print_item` of `Field.__str__` / `Domain.__str__` -/
@@ -128,9 +128,9 @@ def dumpItem (ax : Entry → Option (List Nat)) (names : List Nat) (e : Entry) :
 def reprF (f : MField) : Option Unit :=
   if f.isDomain then some () else lookAll f.axisKeys (f.dataAxes.getD [])
 
-/-- `Domain.__repr__` as it is: it first evaluates `sorted([axis.get_size(None) for …])`
-(the result is never used); sorting two or more items of which one is `None` compares
-`None` with another item and raises `TypeError`.  The proposed patch removes the statement,
+/-- `Domain.__repr__` before repair f9edab4: it first evaluated `sorted([axis.get_size(None) for …])`
+(the result was never used); sorting two or more items of which one is `None` compares
+`None` with another item and raises `TypeError`.  The repair removed the statement,
 after which `repr` of a domain is `reprF`. -/
 def reprDomainOld (f : MField) : Option Unit :=
   if decide (2 ≤ f.axes.length) && f.axes.any (fun p => p.2.size.isNone) then none else some ()
@@ -205,9 +205,9 @@ def describeWith (ax : Entry → Option (List Nat)) (f : MField) : Option Unit :
   | none => none
   | some _ => dumpF ax f
 
-/-- the formatters with the proposed patch applied -/
+/-- the formatters at /repo HEAD (repairs fabc4b1, f9edab4) -/
 def describe (f : MField) : Option Unit := describeWith axesNew f
-/-- the formatters as they are -/
+/-- the formatters before those repairs -/
 def describeOld (f : MField) : Option Unit := describeWith axesOld f
 
 /-! ## Part 2 — creation commands and their interpreter -/
@@ -259,7 +259,7 @@ def conCmds (t : CType) (c : Con) : List Cmd :=
      | some b => boundsCmds b
      | none => [])
 
-/-- patched: `axes={self.get_data_axes(key, default=None)}` -/
+/-- /repo HEAD (repair fabc4b1): `axes={self.get_data_axes(key, default=None)}` -/
 def conBlock (e : Entry) : List Cmd := conCmds e.key.t e.con ++ [Cmd.setCon e.key e.axes]
 
 def cmBlock (p : Nat × CM) : List Cmd :=
@@ -287,11 +287,11 @@ def fieldCmds (f : MField) : List Cmd :=
   if f.isDomain then [] else
     (f.ofType .fan).flatMap conBlock ++ f.cms.flatMap cmBlock ++ optCmd f.dataAxes Cmd.setDataAxes
 
-/-- `Field.creation_commands` / `Domain.creation_commands` (patched code). -/
+/-- `Field.creation_commands` / `Domain.creation_commands` at /repo HEAD. -/
 def creationCommands (order : List CType) (f : MField) : List Cmd :=
   headerCmds f ++ (domainCmds order f ++ fieldCmds f)
 
-/-- The code as it is: `self.get_data_axes(key)` raises `ValueError` for a construct
+/-- The code before repair fabc4b1: `self.get_data_axes(key)` raised `ValueError` for a construct
 without data axes. -/
 def creationCommandsOld (order : List CType) (f : MField) : Option (List Cmd) :=
   if f.cons.all (fun e => e.axes.isSome) then some (creationCommands order f) else none
